@@ -136,7 +136,10 @@ func (f *GlobFilter) Matches(config *domain.FilterConfig, itemName string) bool 
 // matchesPattern checks if a string matches a glob pattern with caching
 func (f *GlobFilter) matchesPattern(s, patternStr string) bool {
 	// caching for perf
-	cacheKey := fmt.Sprintf("%s::%s", s, patternStr)
+	// The key must not be ambiguous: with a printable separator such as "::" the pairs
+	// ("m", "q::m*") and ("m::q", "m*") share a key and the memoised answer of one is served
+	// for the other. Length-prefixing the name makes the encoding injective.
+	cacheKey := fmt.Sprintf("%d:%s%s", len(s), s, patternStr)
 
 	f.cacheMu.RLock()
 	if result, exists := f.patternCache[cacheKey]; exists {
